@@ -163,13 +163,13 @@ pub fn run_history_t(rng: &mut Rng, opts: &HistoryOpts, rep: &mut Report, prop: 
     let mut todo: Vec<Top> = vec![];
     if opts.matrix {
         let contracts: Vec<String> = w.model.st.contracts.keys().cloned().collect();
-        todo.extend(reply_matrix(&w.users, &contracts, 20_000));
         let admined: Vec<(String, String)> = w.model.st.contracts.iter().filter_map(|(a, c)| c.admin.clone().filter(|x| w.users.contains(x)).map(|x| (a.clone(), x))).collect();
         let full_codes: Vec<u64> = w.model.codes.iter().filter(|(_, c)| c.entry_points == (true, true, true) && !c.lifted).map(|(id, _)| *id).collect();
         if !admined.is_empty() && full_codes.len() >= 2 {
-            todo.extend(admin_matrix(&admined, &full_codes, &w.users[2], 30_000));
+            todo.extend(admin_matrix(&w.model, &admined, &full_codes, &w.users[2], 30_000));
             rep.bump("e1/admin_matrix_histories");
         }
+        todo.extend(reply_matrix(&w.users, &contracts, 20_000));
         todo.reverse();
     }
     let mut tag_base = 100u32;
